@@ -70,13 +70,18 @@ def strategy_(draw, tier):
             ops.append(["reattach", draw(st.sampled_from(["r", "w", "w"]))])
         elif c < 92:
             ops.append(["reopen", draw(st.sampled_from(["r", "w", "w"]))])
-        elif c < 95:
+        elif c < 94:
             ops.append(["inquire"])
         elif c < 98:
             # class / name edits of the (possibly already stored) table, of lengths around the current ones
+            if draw(st.booleans()):
+                # the typical later edit: re-attach the stored table, change its class/name, append
+                ops.append(["reattach", "w"])
             ops.append([draw(st.sampled_from(["setclass", "setclass", "setname"])),
                         draw(st.sampled_from(["", "c", "raw", "tbl2", "calibrated", "temperature_table",
                                               "a class name that is longer than any of the table names"]))])
+            if draw(st.booleans()):
+                ops.append(["write", draw(st.integers(1, 8)), FULL, draw(st.integers(0, 999))])
         else:
             ops.append(["fpack", draw(st.integers(1, 5)), draw(st.integers(0, 99))])
     blocks = None
